@@ -130,6 +130,36 @@ theorem put_kind {α : Type} (a r : DimArray α) (ui : UserIndex) (rhs : RHS α)
         cases h
         rfl
 
+
+/-! ### full-shape boolean masks (`a[mask] = v`, `put(mask, v)`) -/
+
+/-- the cells where the mask is true take the value, every other cell, all labels, dimension names and the
+metadata are untouched; a mask of another shape is an IndexError -/
+theorem putBool_spec {α : Type} (a r : DimArray α) (mask : NDArr Bool) (v : α) (rk : Kind) (cast : Bool)
+    (h : putBool a mask v rk cast = .ok r) :
+    mask.shape = a.vals.shape ∧ r.axes = a.axes ∧ r.attrs = a.attrs ∧ r.vals.shape = a.vals.shape ∧
+    (∀ j, mask.get j = true → r.vals.get j = v) ∧ (∀ j, mask.get j = false → r.vals.get j = a.vals.get j) := by
+  unfold putBool at h
+  split at h
+  · cases h
+  · rename_i hs
+    have hshape : mask.shape = a.vals.shape := by
+      by_cases hq : mask.shape = a.vals.shape
+      · exact hq
+      · exact absurd (by simp [bne_iff_ne, hq]) hs
+    injection h with h
+    subst h
+    refine ⟨hshape, rfl, rfl, rfl, ?_, ?_⟩
+    · intro j hj
+      simp [NDArr.putWhere, hj]
+    · intro j hj
+      simp [NDArr.putWhere, hj]
+
+theorem putBool_shape_error {α : Type} (a : DimArray α) (mask : NDArr Bool) (v : α) (rk : Kind) (cast : Bool)
+    (hne : mask.shape ≠ a.vals.shape) : putBool a mask v rk cast = .error .index := by
+  unfold putBool
+  simp [bne_iff_ne, hne]
+
 /-! ### the cast table of the implementation (regenerated on every run) -/
 
 /-- the implementation's `_maybe_cast_type` is the model's `maybeCastKind` on every pair of kinds -/
